@@ -83,6 +83,25 @@ CLAIMS = {
              "and generic paths. Known findings F3 (mode accepted, unhandled) and F4 (identity does not reset weights).",
         technique=TECH + "MRO-resolved table agreement, interprocedural must-write and fresh/stale typestate analysis on the CFG, "
                          "symbolic shape inference, symbolic differentiation of bilinear normal forms"),
+    "C14": dict(
+        text="Decides the reproducibility half for every seed and call history: (G1) every random draw in quara (receiver or "
+             "random_state=) is def-use derived from to_stream(seed parameter), a Generator, or the sampling object's own random_state; "
+             "(G2) no module-level numpy.random draw and no re-seeding outside Experiment.reset_seed_data; (G3) to_stream's three "
+             "branches; (G4) no seed-or-generator parameter is converted, or handed on raw, inside a loop.",
+        note="Not decided: validity of sampled outcomes at the cumulative-sum boundary, prefix counting, distributional agreement "
+             "(numerical / statistical).",
+        technique=TECH + "def-use analysis of random streams over a resolved call graph with a seed-sink fixpoint"),
+    "C15": dict(
+        text="Decides: (H1) no loop hands a loop-invariant raw seed to a seed sink (parameter kinds joined over all call sites, so a "
+             "helper only ever given spawned generators is judged by what it is given); (H2) every joblib.Parallel task gets a stream "
+             "derived from the comprehension variable; (H3) SeedSequence.spawn children become one Generator each and the tasks iterate "
+             "that list; (H4) re-estimation reaches no draw and estimates from what it loads / from the stored distributions; (H5) the "
+             "physicality check dispatches each estimator kind to the constraints it enforces; (H6) the two depolarising implementations "
+             "compose the channel on the same side per kind; (H7) all four tomography classes bind the data-generation calls the "
+             "simulation makes.",
+        note="Not decided: bit-for-bit equality across worker counts, physicality of noise-model outputs, the depolarising mixing "
+             "proportion (numerical).",
+        technique=TECH + "seed-sink / stream-kind dataflow with call-site joins, loop-invariance, slot conformance, sibling agreement"),
 }
 
 NOT_APPLICABLE = {
